@@ -836,6 +836,9 @@ impl StateMachine for RocksDBStateMachine {
                         let lease =
                             self.lease.as_ref().expect("lease always initialized by NodeBuilder");
                         lease.register(key.clone(), *ttl);
+                    } else if let Some(ref lease) = self.lease {
+                        // Overwrite without TTL: the new value must not inherit the old expiry.
+                        lease.unregister(key);
                     }
 
                     results.push(ApplyResult::success(entry.index));
@@ -867,6 +870,10 @@ impl StateMachine for RocksDBStateMachine {
 
                     if cas_success {
                         batch.put_cf(&cf, key, new_value);
+                        // CAS writes carry no TTL: cancel any earlier expiry of this key.
+                        if let Some(ref lease) = self.lease {
+                            lease.unregister(key);
+                        }
                     }
 
                     results.push(if cas_success {
